@@ -123,7 +123,7 @@ def mc_configs(ctx, cat):
         bridges = [dict(L=L, sev=s, f=f) for L in range(9) for s in range(12) for f in ("json", "logfmt", "color")]
         cfgs["wide"] = dict(Roots=roots, MaxHandlers=2, DeriveFromAny=False, ProbeAll=True,
                             HandleCells=handle_cells(n_sh, True), BridgeCfgs=bridges, GroupNames={"G", "H"})
-        deep_roots = [dict(L=L, oi=oi) for (L, oi) in [(TRACE, 2), (INFO, 4), (DEBUG, 7), (WARN, 12), (ALWAYS, 21), (ERROR, 30)]]
+        deep_roots = [dict(L=L, oi=oi) for (L, oi) in [(TRACE, 2), (INFO, 4), (DEBUG, 7), (WARN, 12), (ALWAYS, 21), (ERROR, 30), (OFF, 3), (TRACE, 40)]]
         cfgs["deep"] = dict(Roots=deep_roots, MaxHandlers=4, DeriveFromAny=True, ProbeAll=True,
                             HandleCells=handle_cells(n_sh, False), BridgeCfgs=[], GroupNames={"G", "H"})
     return cfgs
@@ -469,7 +469,7 @@ def run(ctx, replay):
     n_cover = len(behaviours)
     # seeded random behaviours over the catalogue extended with random shapes (a superset, so the
     # edge cover and the random part are executed and validated together)
-    rb = random_part(ctx, cat, 40 if ctx.quick() else 600, 30 if ctx.quick() else 60)
+    rb = random_part(ctx, cat, 40 if ctx.quick() else 1000, 30 if ctx.quick() else 60)
     tagged = [("edge-cover", b) for b in behaviours] + [("random", b) for b in rb]
     # independent chunks: each is executed by its own worker process and validated by its own TLC
     k = 1 if ctx.quick() else 4
